@@ -101,7 +101,7 @@ func short(c fw.Capability) string {
 // ---- dimensions ----
 
 var (
-	trustNames = []string{"anchor-found", "anchor-not-in-store", "store-load-error"}
+	trustNames = []string{"anchor-found", "anchor-not-in-store", "store-load-error", "two-stores:anchor-found+load-error", "two-stores:load-error+anchor-found"}
 	identNames = []string{"wildcard", "pinned-match", "pinned-mismatch"}
 	expNames   = []string{"no-expiry", "expiry-future", "expiry-past"}
 	ctimeNames = []string{"chain-valid-now", "leaf-expired"}
@@ -126,6 +126,9 @@ type cell struct {
 	// version, success verdicts, attributes processed); then the collaborators switch to the cell's answers
 	// (store emptied or broken, certificate revoked, plugin downgraded / uninstalled / failing). Each
 	// verification must reflect what the collaborators answer to IT.
+	// Prior 3: the verifier also carries a BLOB policy whose statement has the same name "p" but the laxest level
+	// (audit, everything logged, revocation skipped); the same instance first verifies the signature as a blob
+	// signature under that statement, then the judged OCI verification must use the OCI statement's level.
 	Prior int `json:"prior"`
 }
 
@@ -348,6 +351,7 @@ func (w *world) run(lv vt.Level, c cell) observation {
 	s := w.sits[c.Plug]
 	ts := mocks.NewTrustStore()
 	storeType := []string{"ca", "signingAuthority"}[c.Scheme]
+	listed := []string{storeType + ":s"}
 	switch c.Trust {
 	case 0:
 		ts.Put(storeType, "s", w.good.Root().Cert)
@@ -355,6 +359,13 @@ func (w *world) run(lv vt.Level, c cell) observation {
 		ts.Put(storeType, "s", w.other.Root().Cert)
 	case 2:
 		ts.Errs[storeType+":s"] = errors.New("mock: store cannot be loaded")
+	case 3, 4: // the statement lists two stores of the required type: one holds the anchor, the other cannot be loaded
+		ts.Put(storeType, "s", w.good.Root().Cert)
+		ts.Errs[storeType+":broken"] = errors.New("mock: store cannot be loaded")
+		listed = []string{storeType + ":s", storeType + ":broken"}
+		if c.Trust == 4 {
+			listed = []string{storeType + ":broken", storeType + ":s"}
+		}
 	}
 	ids := []string{"*"}
 	switch c.Ident {
@@ -364,7 +375,7 @@ func (w *world) run(lv vt.Level, c cell) observation {
 		ids = []string{"x509.subject:C=US,ST=WA,O=Other", "x509.subject:C=US,ST=WA,O=Verif,CN=somebody else"}
 	}
 	rv := mocks.Fixed(revResults(c.Rev))
-	opts := verifier.VerifierOptions{OCITrustPolicy: vt.OCIDoc(lv.SV(), []string{storeType + ":s"}, ids), RevocationCodeSigningValidator: rv}
+	opts := verifier.VerifierOptions{OCITrustPolicy: vt.OCIDoc(lv.SV(), listed, ids), RevocationCodeSigningValidator: rv}
 	var plug *mocks.VerifyPlugin
 	var mgr *mocks.Manager
 	if !s.ManagerNil {
@@ -377,6 +388,13 @@ func (w *world) run(lv vt.Level, c cell) observation {
 			mgr.Plugins["p"] = plug
 		}
 		opts.PluginManager = mgr
+	}
+	if c.Prior == 3 {
+		lax := trustpolicy.SignatureVerification{VerificationLevel: "audit", Override: map[trustpolicy.ValidationType]trustpolicy.ValidationAction{trustpolicy.TypeRevocation: trustpolicy.ActionSkip}}
+		if lv.Map[tAuth] == "log" && lv.Map[tExp] == "log" && lv.Map[tTS] == "log" && lv.Map[tRev] != "enforce" {
+			lax = trustpolicy.SignatureVerification{VerificationLevel: "strict"} // the OCI level is lax already: use the strictest for the blob statement
+		}
+		opts.BlobTrustPolicy = vt.BlobDoc(lax, listed, ids)
 	}
 	var obs observation
 	v, err := verifier.NewVerifierWithOptions(ts, opts)
@@ -391,10 +409,18 @@ func (w *world) run(lv vt.Level, c cell) observation {
 			plug.VerifyCalls, plug.MetadataCalls = nil, 0
 		}
 	}
+	if c.Prior == 3 {
+		gen := func(alg digest.Algorithm) (ocispec.Descriptor, error) { return w.desc, nil }
+		_, _ = v.VerifyBlob(ctx, gen, w.envelope(c), notation.BlobVerifierVerifyOptions{SignatureMediaType: forge.Formats[c.Format], TrustPolicyName: "p"})
+		ts.Calls, rv.Calls = nil, nil
+		if plug != nil {
+			plug.VerifyCalls, plug.MetadataCalls = nil, 0
+		}
+	}
 	if c.Prior == 2 {
 		// phase 1: good answers everywhere
 		savedStores, savedErrs, savedRes := ts.Stores, ts.Errs, rv.Results
-		ts.Stores = map[string][]*x509.Certificate{storeType + ":s": {w.good.Root().Cert}}
+		ts.Stores = map[string][]*x509.Certificate{storeType + ":s": {w.good.Root().Cert}, storeType + ":broken": {w.good.Root().Cert}}
 		ts.Errs = map[string]error{}
 		rv.Results = mocks.AllOK().Results
 		var savedPlug mocks.VerifyPlugin
@@ -437,6 +463,9 @@ func (w *world) run(lv vt.Level, c cell) observation {
 		}
 		if c.Prior == 2 {
 			key += ":after-collaborators-changed-their-answers"
+		}
+		if c.Prior == 3 {
+			key += ":after-blob-verification-under-equally-named-statement"
 		}
 		obs.Viol = append(obs.Viol, key+" :: "+what)
 	}
@@ -613,8 +642,8 @@ func main() {
 		r.Finish()
 	}
 
-	sizes := []int{2, 2, 3, 3, 3, 2, 4, len(w.sits), 4}
-	maxDev := 3
+	sizes := []int{2, 2, len(trustNames), 3, 3, 2, 4, len(w.sits), 4}
+	maxDev := 2
 	if r.Thorough() {
 		maxDev = len(sizes)
 	}
@@ -666,6 +695,10 @@ func main() {
 			cells = append(cells, c)
 			c.Prior = 2
 			cells = append(cells, c)
+			if d <= 2 {
+				c.Prior = 3
+				cells = append(cells, c)
+			}
 		}
 	}
 	sort.SliceStable(cells, func(i, j int) bool { return devOf(cells[i]) < devOf(cells[j]) })
